@@ -77,7 +77,7 @@ def c08(ctx):
 # --------------------------------------------------------------------------- C09
 
 MT_CFG = cfg(spec="TraceSpec",
-             constants={"Modes": ["bdn"], "NMax": 2, "MaxExtra": 0, "MaxExtraBig": 0, "Rot": 0, "BuggyDup": False, "NSSet": [1], "MaxOps": 0, "MaxOpsBig": 0},
+             constants={"Modes": ["bdn"], "NMax": 2, "MaxExtra": 0, "MaxExtraBig": 0, "Rot": 0, "BuggyDup": False, "NSSet": [1], "MaxOps": 0, "MaxOpsBig": 0, "MaxProbes": 0},
              constraint="Mark", postcondition="TraceAccepted")
 
 
@@ -99,7 +99,7 @@ def _mask_traces(ctx, binary, n_traces, events, selftest):
         kind = json.loads(lines[start]).get("kind", "?")
         ctx.violations.append({
             "key": "C09/masktrace/%s/%s/projection-or-return-differs" % (kind, ev.get("ev")),
-            "what": "a recorded %s mask run is not a behaviour of the mask specification at event %s (return value or Mask()/CountEnabled/IndexOfNthEnabled projection)" % (kind, ev.get("ev")),
+            "what": "a recorded %s mask run is not a behaviour of the mask specification at event %s (return value, Mask()/CountEnabled/IndexOfNthEnabled projection, or the aggregate key reported at an AggKey event)" % (kind, ev.get("ev")),
             "detail": {"rejected_at": at, "trace_prefix": [json.loads(x) for x in lines[start:at]]},
             "driver": "masktrace", "args": []})
     if selftest and ok:
@@ -138,6 +138,7 @@ def c09(ctx):
         "NSSet": [4, 10],
         "MaxOps": 2,
         "MaxOpsBig": 1 if q else 2,
+        "MaxProbes": 1 if q else 2,
     }
     # code -> spec in a background thread (TLC start-up dominates; it overlaps with the generator run)
     err = []
@@ -167,15 +168,15 @@ def c09(ctx):
         full = dict(consts, Modes=["tbls"], MaxExtra=6, MaxExtraBig=3, NMax=5)
         ctx.tlc("MultiSig", cfg(constants=full, invariants=["TypeOK", "Meta", "RecoverIffEnoughValid"], view="View"), name="C09_tbls_mc")
         # every mask call sequence of length <= 4 for 4 signers, model only (the state graph is small: MaskMeta, BdnMeta, CosiMeta)
-        m4 = dict(consts, Modes=["bdn", "cosi"], NSSet=[4], MaxOps=4, MaxOpsBig=0)
-        ctx.tlc("MultiSig", cfg(constants=m4, invariants=["TypeOK", "Meta"], view="View"), name="C09_masks_mc4")
+        m4 = dict(consts, Modes=["bdn", "cosi"], NSSet=[4], MaxOps=4, MaxOpsBig=0, MaxProbes=0)
+        ctx.tlc("MultiSig", cfg(constants=dict(m4, MaxProbes=2), invariants=["TypeOK", "Meta"], view="View"), name="C09_masks_mc4")
         # transition tour of that graph: one replayed behaviour per (mask state, operation)
         tb, _ = _collect(ctx, "MultiSig", cfg(constants=m4, invariants=["TypeOK"], view="TourView", action_constraint="EmitEdge"), "C09_tour")
         ctx.run_vh("c09", ["-in", tb, "-exh", 1, "-pairmax", 300, "-maskmax", 3000, "-maxslow", 1000], binary=binary)
         # random longer call sequences (<= 6 calls; 4 and 10 signers)
-        ms = dict(consts, Modes=["bdn", "cosi"], MaxOps=6, MaxOpsBig=6)
+        ms = dict(consts, Modes=["bdn", "cosi"], MaxOps=6, MaxOpsBig=6, MaxProbes=3)
         mb, _ = _collect(ctx, "MultiSig", cfg(constants=ms, invariants=["TypeOK", "Emit"]), "C09_masks_sim",
-                         simulate="num=1500", depth=9, workers=1)
+                         simulate="num=1500", depth=12, workers=1)
         ctx.run_vh("c09", ["-in", mb, "-exh", -1, "-pairmax", 200, "-maxslow", 500], binary=binary)
         # larger (n, t) by simulation: random lists for 2 <= t <= n <= 8, replayed on all 8 combinations
         simc = dict(consts, Modes=["tbls"], NMax=8, MaxExtra=4, MaxExtraBig=4)
